@@ -203,6 +203,17 @@ func nasCtor(e *emitter) {
 		return blob(lens...)
 	}
 	dnn := func() string {
+		if rng.Intn(6) == 0 {
+			// a DNN whose FIRST character, read as a number, is the number of characters that follow it (or one more / one
+			// less): a value that looks as if it already carried its length octet
+			c := "-0123456789ABCDEFGHIJKLMNOPQRSTUVWXYZabc"[rng.Intn(40)]
+			b := make([]byte, int(c)+1+[]int{0, 0, 0, -1, 1}[rng.Intn(5)])
+			for i := range b {
+				b[i] = "abcdefghijklmnopqrstuvwxyz0123456789-"[rng.Intn(37)]
+			}
+			b[0] = c
+			return hx(b)
+		}
 		switch rng.Intn(8) {
 		case 0:
 			return "-"
@@ -227,6 +238,10 @@ func nasCtor(e *emitter) {
 			return "nil", "-"
 		case 1:
 			return strconv.Itoa(rng.Intn(256)), blob(0, 1, 2, 4, 5)
+		}
+		if rng.Intn(4) == 0 {
+			// slice differentiators with leading zero octets, the reserved all-ones value, and neighbours
+			return strconv.Itoa(1 + rng.Intn(4)), []string{"000001", "00ab00", "0000ff", "ffffff", "000000", "fffffe", "010000", "00ffff"}[rng.Intn(8)]
 		}
 		return strconv.Itoa([]int{1, 2, 3, rng.Intn(256)}[rng.Intn(4)]), hx(e.bytes(3))
 	}
